@@ -49,6 +49,7 @@ type verifJC struct {
 }
 
 type verifCronEnv struct {
+	lastRead time.Time
 	jcs      []*verifJC
 	rec      *verifEnqueueRecorder
 	worker   *CronWorker
@@ -346,4 +347,55 @@ func VerifH_C01_L2_work2() {
 	env.verifClock(now, 2*(env.maxCount+2)+2)
 	env.worker.Work()
 	env.verifCheckPass(now)
+}
+
+// verifClock2: the clock reads `now` for the first `after` readings and `later`
+// from then on (a pass that is slower than the gap to the next match). Work()
+// reads the clock once at its start and once per Pop: between two Pop readings
+// the pending priority of the (single) JobConfig must have moved strictly
+// forward, otherwise the loop pops the same time for ever. Passes longer than
+// maxReads readings are cut (bound).
+func (env *verifCronEnv) verifClock2(now, later time.Time, after, maxReads int) {
+	reads := 0
+	prev, hadPrev := 0, false
+	key := env.jcs[0].key
+	vz.NowFn = func() time.Time {
+		reads++
+		if reads > maxReads {
+			vz.Cover("pass-longer-than-bound")
+			vz.Assume(false)
+		}
+		if reads >= 2 {
+			p, ok := env.worker.schedule.VerifSearch(key)
+			if ok && hadPrev {
+				vz.Assert(p > prev, "C01/L2/pass-makes-progress")
+			}
+			prev, hadPrev = p, ok
+		}
+		if reads > after {
+			env.lastRead = later
+			return later
+		}
+		env.lastRead = now
+		return now
+	}
+}
+
+// VerifH_C01_L2_workSlow: one Work() pass during which the clock moves on (the
+// pass starts at `now`; from some reading on the clock shows `later`). The pass
+// keeps making progress, fires nothing early or twice, and leaves the next
+// priority in the future of the last clock reading.
+func VerifH_C01_L2_workSlow() {
+	env := verifSetupCron(verifCronOpts{P: 1, K: 1, witness: false, maxMissedHi: 2})
+	now := vz.Instant("now")
+	later := vz.Instant("later")
+	vz.Assume(!later.Before(now))
+	after := 1 + vz.Choice("clockMovesAfterReading", 4)
+	env.verifClock2(now, later, after, 10)
+	env.worker.Work()
+	if env.lastRead.After(now) {
+		vz.Cover("clock-moved")
+	}
+	// (judged against the last clock reading the pass made: what became due after it is the next pass's business)
+	env.verifCheckPass(env.lastRead)
 }
